@@ -526,6 +526,7 @@ func (m *Memberlist) UpdateNode(timeout time.Duration) error {
 	m.nodeLock.RUnlock()
 
 	// Format a new alive message
+	m.vg("update.afterRead")
 	a := alive{
 		Incarnation: m.nextIncarnation(),
 		Node:        m.config.Name,
@@ -535,6 +536,7 @@ func (m *Memberlist) UpdateNode(timeout time.Duration) error {
 		Vsn:         m.config.BuildVsnArray(),
 	}
 	notifyCh := make(chan struct{})
+	m.vg("update.afterInc")
 	m.aliveNode(&a, notifyCh, true)
 
 	// Wait for the broadcast or a timeout
@@ -656,12 +658,14 @@ func (m *Memberlist) Leave(timeout time.Duration) error {
 
 	if !m.hasLeft() {
 		m.leave.Store(1)
+		m.vg("leave.afterFlag")
 
 		m.nodeLock.Lock()
 		state, ok := m.nodeMap[m.config.Name]
 		incarnation := state.Incarnation
 		name := state.Name
 		m.nodeLock.Unlock()
+		m.vg("leave.afterRead")
 		if !ok {
 			m.logger.Printf("[WARN] memberlist: Leave but we're not in the node map.")
 			return nil
@@ -679,6 +683,7 @@ func (m *Memberlist) Leave(timeout time.Duration) error {
 		m.deadNode(&d)
 
 		// Block until the broadcast goes out
+		m.vg("leave.beforeWait")
 		if m.anyAlive() {
 			var timeoutCh <-chan time.Time
 			if timeout > 0 {
@@ -744,6 +749,7 @@ func (m *Memberlist) Shutdown() error {
 	if err := m.transport.Shutdown(); err != nil {
 		m.logger.Printf("[ERR] Failed to shutdown transport: %v", err)
 	}
+	m.vg("shutdown.afterTransport")
 
 	// Now tear down everything else.
 	m.shutdown.Store(1)
@@ -787,6 +793,7 @@ func (m *Memberlist) changeNode(addr string, f func(*nodeState)) {
 // checkBroadcastQueueDepth periodically checks the size of the broadcast queue
 // to see if it is too large
 func (m *Memberlist) checkBroadcastQueueDepth() {
+	defer m.vop("go", "checkBroadcastQueueDepth")()
 	for {
 		select {
 		case <-time.After(m.config.QueueCheckInterval):
